@@ -13,7 +13,7 @@ META = {
         note="Trusted: the specification tables in sa/spec.py (Appendix B of DESIGN.md); Python comparison semantics on numbers.",
         technique="static analysis: table/data agreement, CFG must-pass-through, finite truth-table extraction", ref="5/C01"),
     "C02": dict(
-        text="Static: $ref short-circuits siblings in the dispatcher; every scope push is popped on every exit incl. exception and generator-close edges (typestate over the CFG); the pushed scope is the resolved URL; joins are against the current top of the scope stack; pointer pipeline order (shared with C14); references written inside a document under a handler's own scheme or a URN resolve against that document (R2.15: fragment-only case fixed in /repo, relative-path case known finding F-19); no size/depth threshold in the resolver or dispatcher (R2.16). Not decided: verdict equality with the inlined schema on concrete inputs; RFC 3986 join (stdlib).",
+        text="Static: $ref short-circuits siblings in the dispatcher; every scope push is popped on every exit incl. exception and generator-close edges (typestate over the CFG); the pushed scope is the resolved URL; joins are against the current top of the scope stack; pointer pipeline order (shared with C14); references written inside a document under a handler's own scheme or a URN resolve against that document (R2.15: fragment-only case fixed in /repo, relative-path case known finding F-19); no size/depth threshold in the resolver or dispatcher (R2.16); eleven spellings of a reference under an http base reach their RFC 3986 targets in the store through the package's own resolve() (R2.19, definitional interpreter). Not decided: verdict equality with the inlined schema on concrete inputs; RFC 3986 join (stdlib).",
         note="Trusted: urllib.parse.urljoin/urldefrag; CPython generator finalisation.",
         technique="static analysis: typestate/pairing on CFG with close edges, reaching definitions, provenance", ref="5/C02"),
     "C03": dict(
@@ -25,7 +25,7 @@ META = {
         note="Trusted: determinism follows from C07/C18 purity (composition).",
         technique="static analysis: call-graph who-calls, dominators, def-use provenance, table agreement", ref="5/C04"),
     "C05": dict(
-        text="Static: dispatcher loop has no early exit and yields every error of every keyword function; no keyword function leaves a loop after yielding in it; keyword functions read exactly the sibling names the spec gives them; keyword functions write no shared state; no lazy reader of loop variables is put aside (R5.14); no size threshold (R5.15). Not decided: multiset equality on concrete inputs.",
+        text="Static: dispatcher loop has no early exit and yields every error of every keyword function; no keyword function leaves a loop after yielding in it; keyword functions read exactly the sibling names the spec gives them; keyword functions write no shared state; no lazy reader of loop variables is put aside (R5.14); no size threshold (R5.15); nothing keyed by the address id() of an object it does not keep (R5.16). Not decided: multiset equality on concrete inputs.",
         note="Trusted: spec sibling table (Appendix B.2).",
         technique="static analysis: CFG loop-exit rule, schema-key read sets, effect analysis", ref="5/C05"),
     "C06": dict(
